@@ -55,6 +55,7 @@ LitZ(x) == Z(x.neg, MFromDigits(x.ds, 10))     \* decimal digits, most significa
 (* Boolean).  A result of "stuck" marks an application outside the domain  *)
 (* (division by zero); generated programs never do that.                   *)
 Stuck == [t |-> "stuck"]
+TooBig == [t |-> "toobig"]
 
 PrimApply(op, a) ==
   CASE op = "si.add" -> VSI(WrapSI(Add(a[1].z, a[2].z)))
@@ -73,7 +74,8 @@ PrimApply(op, a) ==
     [] op = "si.tobi" -> VBI(a[1].z)
     [] op = "bi.add" -> VBI(Add(a[1].z, a[2].z))
     [] op = "bi.sub" -> VBI(Sub(a[1].z, a[2].z))
-    [] op = "bi.mul" -> VBI(Mul(a[1].z, a[2].z))
+    \* BigZ keeps column sums below 2^31 only up to about 500 digits per operand: larger products leave the family
+    [] op = "bi.mul" -> IF Len(a[1].z.mag) + Len(a[2].z.mag) > 400 THEN TooBig ELSE VBI(Mul(a[1].z, a[2].z))
     [] op = "bi.neg" -> VBI(Neg(a[1].z))
     [] op = "bi.quo" -> IF IsZero(a[2].z) THEN Stuck ELSE VBI(QuoRem(a[1].z, a[2].z).q)
     [] op = "bi.rem" -> IF IsZero(a[2].z) THEN Stuck ELSE VBI(QuoRem(a[1].z, a[2].z).r)
@@ -84,7 +86,8 @@ PrimApply(op, a) ==
     [] op = "bi.ge"  -> VBool(Cmp(a[1].z, a[2].z) >= 0)
     [] op = "bi.eq"  -> VBool(Eq(a[1].z, a[2].z))
     [] op = "bi.ne"  -> VBool(~Eq(a[1].z, a[2].z))
-    [] op = "bi.pow" -> VBI(PowNat(a[1].z, MToNat(a[2].z.mag)))     \* exponent: small non-negative SI
+    [] op = "bi.pow" -> IF Len(a[1].z.mag) * MToNat(a[2].z.mag) > 400 THEN TooBig
+                        ELSE VBI(PowNat(a[1].z, MToNat(a[2].z.mag)))     \* exponent: small non-negative SI
     [] op = "bool.not" -> VBool(~a[1].b)
     [] op = "bool.eq"  -> VBool(a[1].b = a[2].b)
     [] op = "bool.ne"  -> VBool(a[1].b # a[2].b)
@@ -132,6 +135,20 @@ Go(upd) == st' = Tick(upd)
 ---------------------------------------------------------------------------
 (* application once all operands are values                                *)
 
+(* Domains.  P.cats[c] = [name, ops: <<[name, ..]>>, defaults: <<[name, ps, body]>>];            *)
+(* P.doms[d] = [name, cat, pcat (0 = not parametrised), ops: <<[name, ps, body]>>].           *)
+(* A domain value is [t |-> "dom", i, arg]; an exported operation is looked up in the domain's *)
+(* own definitions first and in the defaults of its category otherwise; its body runs with     *)
+(* %self = the final domain (so a default that calls an export reaches the domain's own         *)
+(* definition) and %T = the actual parameter.                                                  *)
+RECURSIVE DomVal(_, _, _)
+DomVal(dx, env, s) ==
+  CASE dx.d = "base"  -> [t |-> "dom", i |-> dx.i, arg |-> VNil]
+    [] dx.d = "app"   -> [t |-> "dom", i |-> dx.i, arg |-> DomVal(dx.arg, env, s)]
+    [] dx.d = "self"  -> s[env["%self"]]
+    [] dx.d = "param" -> s[env["%T"]]
+FindByName(seq, name) == LET m == {i \in 1..Len(seq) : seq[i].name = name} IN IF m = {} THEN 0 ELSE CHOOSE i \in m : TRUE
+
 CallClosure(s0, k0, clo, vals, callerEnv) ==
   LET b == BindAll(clo.env, s0, clo.ps, vals)
   IN [st EXCEPT !.s = b.s, !.e = b.env, !.c = Ev(clo.body), !.k = Push(k0, [f |-> "call", env |-> callerEnv])]
@@ -150,7 +167,9 @@ ApplyWhat(w, vs, env, k0) ==
   LET s0 == st.s IN
   CASE w.w = "prim" ->
          LET r == PrimApply(w.op, vs)
-         IN IF r.t = "stuck" THEN [st EXCEPT !.status = "stuck", !.k = k0] ELSE [st EXCEPT !.c = Val(r), !.k = k0]
+         IN IF r.t = "stuck" THEN [st EXCEPT !.status = "stuck", !.k = k0]
+            ELSE IF r.t = "toobig" THEN [st EXCEPT !.status = "fuel", !.k = k0]
+            ELSE [st EXCEPT !.c = Val(r), !.k = k0]
     [] w.w = "call" ->
          LET fn == P.funs[w.fi]
          IN CallClosure(s0, k0, [ps |-> fn.ps, body |-> fn.body, env |-> st.g], vs, env)
@@ -183,6 +202,16 @@ ApplyWhat(w, vs, env, k0) ==
     [] w.w = "uis"  -> [st EXCEPT !.c = Val(VBool(s0[vs[1].l].tag = w.tag)), !.k = k0]
     [] w.w = "uget" -> IF s0[vs[1].l].tag # w.tag THEN [st EXCEPT !.status = "stuck"]
                        ELSE [st EXCEPT !.c = Val(s0[vs[1].l].v), !.k = k0]
+    [] w.w = "dcall" ->
+         LET D == P.doms[w.dom.i]
+             own == FindByName(D.ops, w.op)
+             dflt == FindByName(P.cats[D.cat].defaults, w.op)
+         IN IF own = 0 /\ dflt = 0 THEN [st EXCEPT !.status = "stuck"]
+            ELSE LET d == IF own # 0 THEN D.ops[own] ELSE P.cats[D.cat].defaults[dflt]
+                     s1 == s0 \o <<w.dom, w.dom.arg>>
+                     e0 == ("%self" :> Len(s0) + 1) @@ ("%T" :> Len(s0) + 2)
+                     b == BindAll(e0, s1, d.ps, vs)
+                 IN [st EXCEPT !.s = b.s, !.e = b.env, !.c = Ev(d.body), !.k = Push(k0, [f |-> "call", env |-> env])]
     [] w.w = "throw" -> [st EXCEPT !.c = [k |-> "thr", exn |-> w.exn, vs |-> vs], !.k = k0]
     [] w.w = "for" ->
          [st EXCEPT !.c = Val(VUnit),
@@ -200,9 +229,20 @@ EvLit == IsEv /\ X.e = "lit" /\
 EvBool == IsEv /\ X.e = "bool" /\ Go([st EXCEPT !.c = Val(VBool(X.b))])
 EvStr  == IsEv /\ X.e = "str"  /\ Go([st EXCEPT !.c = Val(VStr(X.s))])
 EvUnit == IsEv /\ X.e = "unit" /\ Go([st EXCEPT !.c = Val(VUnit)])
+(* a macro parameter is bound to its unevaluated argument (a thunk): every use evaluates the   *)
+(* argument text again in the environment of the use site, which is what substitution means   *)
+IsThunk(cell) == "o" \in DOMAIN cell /\ cell.o = "thunk"
 EvVar  == IsEv /\ X.e = "var"  /\
-  Go(IF X.x \in DOMAIN st.e THEN [st EXCEPT !.c = Val(st.s[st.e[X.x]])]
+  Go(IF X.x \in DOMAIN st.e
+     THEN LET cell == st.s[st.e[X.x]] IN
+          IF IsThunk(cell) THEN [st EXCEPT !.c = Ev(cell.x), !.e = cell.env] ELSE [st EXCEPT !.c = Val(cell)]
      ELSE [st EXCEPT !.status = "stuck"])
+(* m(a1, .., an) where m(p1, .., pn) ==> body: the body with the arguments substituted.       *)
+(* Macro bodies mention only their parameters (capture-free by construction of the family).   *)
+EvMac == IsEv /\ X.e = "mac" /\
+  Go(LET m == P.macs[X.mi]
+         b == BindAll(<<>>, st.s, m.ps, [i \in 1..Len(X.args) |-> [o |-> "thunk", x |-> X.args[i], env |-> st.e]])
+     IN [st EXCEPT !.s = b.s, !.e = b.env, !.c = Ev(m.body)])
 
 (* every form that first evaluates a list of operands left to right        *)
 (* what: [w |-> "prim", op] | [w |-> "call", fi] | [w |-> "callv"] |        *)
@@ -249,6 +289,8 @@ EvRSet  == IsEv /\ X.e = "rset" /\ GoAny(StartArgs([w |-> "rset", i |-> X.i], <<
 EvMkUn  == IsEv /\ X.e = "mkun" /\ GoAny(StartArgs([w |-> "mkun", tag |-> X.tag], <<X.v>>))
 EvUIs   == IsEv /\ X.e = "uis"  /\ GoAny(StartArgs([w |-> "uis", tag |-> X.tag], <<X.u>>))
 EvUGet  == IsEv /\ X.e = "uget" /\ GoAny(StartArgs([w |-> "uget", tag |-> X.tag], <<X.u>>))
+EvDCall == IsEv /\ X.e = "dcall" /\
+  GoAny(StartArgs([w |-> "dcall", dom |-> DomVal(X.dom, st.e, st.s), op |-> X.op], X.args))
 EvThrow == IsEv /\ X.e = "throw" /\ GoAny(StartArgs([w |-> "throw", exn |-> X.exn], X.args))
 
 EvIf == IsEv /\ X.e = "if" /\
@@ -443,9 +485,9 @@ Init == /\ pid \in 1..Len(Progs)
         /\ st = [c |-> Val(VUnit), e |-> <<>>, k |-> <<[f |-> "top", i |-> 1]>>, s |-> <<>>, g |-> <<>>,
                  o |-> <<>>, status |-> "run", n |-> 0]
 
-Step == \/ EvLit \/ EvBool \/ EvStr \/ EvUnit \/ EvVar \/ EvPrim \/ EvCall \/ EvCallV \/ EvPrint
+Step == \/ EvLit \/ EvBool \/ EvStr \/ EvUnit \/ EvVar \/ EvMac \/ EvPrim \/ EvCall \/ EvCallV \/ EvPrint
         \/ EvList \/ EvCons \/ EvListOp \/ EvNewArr \/ EvARef \/ EvASet \/ EvALen \/ EvMkRec \/ EvRGet \/ EvRSet
-        \/ EvMkUn \/ EvUIs \/ EvUGet \/ EvThrow \/ EvIf \/ EvAnd \/ EvOr \/ EvSeq \/ EvAsg \/ EvLet \/ EvLam \/ EvGen
+        \/ EvMkUn \/ EvUIs \/ EvUGet \/ EvDCall \/ EvThrow \/ EvIf \/ EvAnd \/ EvOr \/ EvSeq \/ EvAsg \/ EvLet \/ EvLam \/ EvGen
         \/ EvWhile \/ EvFor \/ EvForIn \/ EvBreak \/ EvIter \/ EvRet \/ EvYield \/ EvTry \/ EvError
         \/ RetArgsNext \/ RetArgsApply \/ RetIf \/ RetAnd \/ RetOr \/ RetSeq \/ RetExitTaken \/ RetExitNot
         \/ RetAsg \/ RetLet \/ RetWhileCond \/ RetWhileBody \/ RetForStep \/ RetForInList \/ RetForInGen
